@@ -108,7 +108,15 @@ def extra_c14(tier, seed):
                        "samples": [{"sweep_run": r} for r in runs[:3]], "sweep_wall_s": round(time.time() - t0, 1)}
     with open(rfile, "w") as f:
         json.dump(out, f, indent=1)
+    _prune(os.path.join(vlib.WORK, "sweep"))
     return out
+
+
+def _prune(d, keep=3):
+    if os.path.isdir(d):
+        entries = sorted(((os.path.getmtime(os.path.join(d, e)), e) for e in os.listdir(d)), reverse=True)
+        for _, e in entries[keep:]:
+            shutil.rmtree(os.path.join(d, e), ignore_errors=True)
 
 
 def _dispatch_related(rej):
@@ -258,6 +266,7 @@ def extra_c19(tier, seed):
                        "matrix_wall_s": round(time.time() - t0, 1)}
     with open(rfile, "w") as f:
         json.dump(out, f, indent=1)
+    _prune(os.path.join(vlib.WORK, "matrix"))
     return out
 
 
